@@ -237,6 +237,9 @@ func runCheck(repo, verif, prop, tier string, verbose bool) int {
 		assumptions = append(assumptions, a)
 	}
 	sort.Strings(assumptions)
+	for _, sk := range e.skipped {
+		assumptions = append(assumptions, "NOT VERIFIED (tool limit): "+sk)
+	}
 	assumptions = append(assumptions, standingAssumptions...)
 	assumptions = append(assumptions, extra.assumptions...)
 	var trusted []string
